@@ -173,17 +173,18 @@ func replayOnce(t *testing.T, p *Property, tier string, scen, sched []int32, tra
 	return rc
 }
 
-func hasClass(rc *RunCtx, class string) *Violation {
+// hasSig finds a violation with exactly this defect-level signature.
+func hasSig(rc *RunCtx, sig string) *Violation {
 	for i := range rc.Violations {
-		if rc.Violations[i].Class == class {
+		if rc.Violations[i].Sig == sig {
 			return &rc.Violations[i]
 		}
 	}
 	return nil
 }
 
-// minimise shrinks both tapes while a violation of the same class persists.
-func minimise(t *testing.T, p *Property, tier, class string, scen, sched []int32, budget int) ([]int32, []int32, int) {
+// minimise shrinks both tapes while a violation with the same signature persists.
+func minimise(t *testing.T, p *Property, tier, sig string, scen, sched []int32, budget int) ([]int32, []int32, int) {
 	tries := 0
 	test := func(a, b []int32) bool {
 		if tries >= budget {
@@ -191,7 +192,7 @@ func minimise(t *testing.T, p *Property, tier, class string, scen, sched []int32
 		}
 		tries++
 		rc := replayOnce(t, p, tier, a, b, false)
-		return rc.Infra == "" && hasClass(rc, class) != nil
+		return rc.Infra == "" && hasSig(rc, sig) != nil
 	}
 	shrink := func(cur []int32, other []int32, isScen bool) []int32 {
 		try := func(c []int32) bool {
@@ -323,7 +324,7 @@ func TestWorker(t *testing.T) {
 			rr.Classes = append(rr.Classes, v.Class)
 			rr.Sigs = append(rr.Sigs, v.Sig)
 			rr.Msgs = append(rr.Msgs, v.Msg)
-			if v.Class == rf.Class {
+			if v.Sig == rf.Sig {
 				rr.Reproduced = true
 			}
 		}
@@ -448,11 +449,11 @@ func TestWorker(t *testing.T) {
 					Scen: append([]int32{}, scen.Rec...), Sched: append([]int32{}, sched.Rec...)}
 				rf.OrigLen = [2]int{len(rf.Scen), len(rf.Sched)}
 				heartbeat.Store(time.Now().UnixNano())
-				ms, md, _ := minimise(t, p, tier, v.Class, rf.Scen, rf.Sched, envInt("VERIF_MIN_BUDGET", 1500))
+				ms, md, _ := minimise(t, p, tier, v.Sig, rf.Scen, rf.Sched, envInt("VERIF_MIN_BUDGET", 1500))
 				heartbeat.Store(time.Now().UnixNano())
 				fin := replayOnce(t, p, tier, ms, md, true)
 				heartbeat.Store(0)
-				if fv := hasClass(fin, v.Class); fv != nil && fin.Infra == "" {
+				if fv := hasSig(fin, v.Sig); fv != nil && fin.Infra == "" {
 					rf.Scen, rf.Sched, rf.Minimised = ms, md, true
 					rf.Msg, rf.Sig = fv.Msg, fv.Sig
 					rf.Hash = fmt.Sprintf("%016x", fin.Hash)
